@@ -176,8 +176,9 @@ class Point2D(object):
         Moves the current point to another position
         Doesn't create a copy
         """
-        self._x += vector[0]
-        self._y += vector[1]
+        new_x = self._x + vector[0]
+        new_y = self._y + vector[1]
+        self._x, self._y = new_x, new_y
         return self
 
     def rotate(self, angle: float) -> Point2D:
